@@ -104,19 +104,29 @@ Proof.
   rewrite !count_occ_app. lia.
 Qed.
 
-Theorem log_addresses_stable_from s ops (A Pl : list N) (E : list (N * nat * nat)) :
+Lemma cle_in a b x : cle a b -> In x a -> In x b.
+Proof.
+  intros H Hi. specialize (H x). apply (count_occ_In N.eq_dec) in Hi. apply (count_occ_In N.eq_dec). lia.
+Qed.
+
+Lemma cle_nodup a b : cle a b -> NoDup b -> NoDup a.
+Proof.
+  intros H Hn. apply (NoDup_count_occ N.eq_dec). intros x. specialize (H x).
+  pose proof (proj1 (NoDup_count_occ N.eq_dec b) Hn x). lia.
+Qed.
+
+Theorem log_addresses_stable_from s ops (A : list N) (E : list (N * nat * nat)) :
   Inv s ->
   NoDup (A ++ taken_in P s ops ++ pulled_in P s ops) ->
   incl (held_ids (st_coll s)) A -> NoDup (held_ids (st_coll s)) ->
   (forall c b i, In (c, b, i) E -> In c A) ->
-  (forall c b i b' i', ~ In c Pl -> In (c, b, i) E -> at_addr (coll_groups (st_coll s)) b' i' c -> b = b' /\ i = i') ->
-  (forall c b i b' i', ~ In c Pl -> In (c, b, i) E -> In (c, b', i') E -> b = b' /\ i = i') ->
-  incl (pulled_in P s ops) Pl ->
-  forall c b i b' i', ~ In c Pl ->
+  (forall c b i b' i', In (c, b, i) E -> at_addr (coll_groups (st_coll s)) b' i' c -> b = b' /\ i = i') ->
+  (forall c b i b' i', In (c, b, i) E -> In (c, b', i') E -> b = b' /\ i = i') ->
+  forall c b i b' i',
     In (c, b, i) (aevs_in s ops ++ E) -> In (c, b', i') (aevs_in s ops ++ E) -> b = b' /\ i = i'.
 Proof.
-  revert s A E. induction ops as [|o ops IH]; intros s A E Hs Hn Hi Hh H4 H5 H6 H7.
-  - unfold aevs_in. simpl. intros c b i b' i' Hc. apply H6; auto.
+  revert s A E. induction ops as [|o ops IH]; intros s A E Hs Hn Hi Hh H4 H5 H6.
+  - unfold aevs_in. simpl. intros c b i b' i'. apply H6.
   - unfold aevs_in, taken_in, pulled_in in *. simpl in *. rewrite !flat_map_app in *.
     destruct (is_dead (st_coll s)) eqn:Hd.
     + assert (Hfix : fst (step_op P s o) = s) by (unfold step_op; rewrite Hd; reflexivity).
@@ -125,19 +135,19 @@ Proof.
       set (s' := fst (step_op P s o)) in *.
       set (l := log (st_world s')) in *.
       set (tk := taken_op (st_coll s) o (st_coll s') l) in *.
-      (* the three facts about this operation *)
       assert (Hfacts : Permutation (held_ids (st_coll s') ++ cdr l) (tk ++ held_ids (st_coll s) ++ acc l)
-                       /\ (forall b i id, at_addr (coll_groups (st_coll s')) b i id ->
-                              at_addr (coll_groups (st_coll s)) b i id \/ In id (tk ++ acc l))
-                       /\ (forall c b i, In (c, b, i) (aevs l) -> at_addr (coll_groups (st_coll s)) b i c \/ In c (acc l))).
+                       /\ exists H,
+                            (forall c b i, In (c, b, i) (aevs l) -> at_addr (coll_groups (st_coll s)) b i c \/ In (c, b, i) H)
+                            /\ (forall b i c, at_addr (coll_groups (st_coll s')) b i c ->
+                                  at_addr (coll_groups (st_coll s)) b i c \/ In (c, b, i) H \/ In c tk \/ (In c (acc l) /\ ~ In c (ids3 H)))
+                            /\ cle (ids3 H) (acc l)).
       { destruct Hs as [Hw Hok]. unfold tk, l, s', step_op. rewrite Hd.
         assert (Hc : cinv (st_coll s) (begin_op (op_inj o) (st_world s))) by (split; auto; apply winv_begin_op; auto).
         destruct (@step_core_step P HP (st_coll s) o _ Hc) as (l1 & L1 & Pm).
-        destruct (@step_core_astep P HP (st_coll s) o _ Hc) as (l2 & L2 & Ha).
-        destruct (step_core_estep P (st_coll s) o (begin_op (op_inj o) (st_world s))) as (l3 & L3 & He).
+        destruct (@step_core_hstep P HP (st_coll s) o _ Hc) as (l2 & H & L2 & He & Hst & Hcl).
         destruct (step_core P (st_coll s) o (begin_op (op_inj o) (st_world s))) as [k' w']. cbn [fst snd st_coll st_world] in *.
-        simpl in L1, L2, L3. rewrite app_nil_r in L1, L2, L3. subst l1 l2 l3. splits; auto. }
-      destruct Hfacts as (Pm & Ha & He).
+        simpl in L1, L2. rewrite app_nil_r in L1, L2. subst l1 l2. split; auto. exists H. splits; auto. }
+      destruct Hfacts as (Pm & H & He & Hst & Hcl).
       assert (Hheld' : forall x, In x (held_ids (st_coll s')) -> In x (tk ++ held_ids (st_coll s) ++ acc l)).
       { intros x Hx. eapply Permutation_in; [exact Pm|]. apply in_or_app; auto. }
       assert (Hn3 : NoDup (tk ++ held_ids (st_coll s) ++ acc l)).
@@ -145,59 +155,86 @@ Proof.
       assert (Hfresh : forall x, In x (tk ++ acc l) -> In x A -> False).
       { intros x H1 H2. eapply nd_app_disj; [exact Hn|exact H2|].
         apply in_app_or in H1 as [H1|H1]; apply in_or_app; [left|right]; apply in_or_app; left; auto. }
-      assert (Hacc : forall x, In x (acc l) -> In x Pl) by (intros x Hx; apply H7; apply in_or_app; auto).
+      assert (Htkacc : forall x, In x tk -> In x (acc l) -> False).
+      { intros x H1 H2. eapply nd_app_disj; [exact Hn3|exact H1|apply in_or_app; right; exact H2]. }
+      assert (Hnacc : NoDup (acc l)) by (eapply nd_app_r; eapply nd_app_r; exact Hn3).
+      assert (HidsH : forall c b i, In (c, b, i) H -> In c (acc l)).
+      { intros c b i Hin. eapply (cle_in (ids3 H) (acc l)); [exact Hcl|]. unfold ids3. apply (in_map (fun x => fst (fst x)) _ (c, b, i)) in Hin. exact Hin. }
+      assert (Hfun : forall c b i b' i', In (c, b, i) H -> In (c, b', i') H -> b = b' /\ i = i').
+      { intros c b i b' i' H1 H2. pose proof (cle_nodup (ids3 H) (acc l) Hcl Hnacc) as Hnd. unfold ids3 in Hnd.
+        pose proof (nd_map_inj (fun x : N * nat * nat => fst (fst x)) H (c, b, i) (c, b', i') Hnd H1 H2 eq_refl) as Eq.
+        inversion Eq; auto. }
       assert (Huniq : forall c b i b' i', at_addr (coll_groups (st_coll s)) b i c -> at_addr (coll_groups (st_coll s)) b' i' c -> b = b' /\ i = i').
       { intros c b i b' i'. apply at_addr_unique. rewrite <- held_ids_gs. exact Hh. }
-      intros c b i b' i' Hc Hin1 Hin2.
+      assert (HheldA : forall c b i, at_addr (coll_groups (st_coll s)) b i c -> In c A).
+      { intros c b i Ha. apply Hi. eapply at_addr_held; eauto. }
+      (* a new event: at its start address (then the child is an old one), or at its home (then it is fresh) *)
+      intros c b i b' i' Hin1 Hin2.
       rewrite <- app_assoc in Hin1, Hin2.
       assert (Hsw : forall (x : N * nat * nat) (X Y Z : list (N * nat * nat)), In x (X ++ Y ++ Z) -> In x (Y ++ X ++ Z)).
       { intros x X Y Z Hx. apply in_app_or in Hx as [Hx|Hx]; [apply in_or_app; right; apply in_or_app; auto|].
         apply in_app_or in Hx as [Hx|Hx]; apply in_or_app; [left|right; apply in_or_app; right]; auto. }
       apply Hsw in Hin1. apply Hsw in Hin2.
-      refine (IH s' (A ++ tk ++ acc l) (aevs l ++ E) _ _ _ _ _ _ _ _ c b i b' i' Hc Hin1 Hin2).
+      refine (IH s' (A ++ tk ++ acc l) (aevs l ++ E) _ _ _ _ _ _ _ c b i b' i' Hin1 Hin2).
       * apply step_inv; auto.
       * apply perm_nodup_shuffle. exact Hn.
       * intros x Hx. apply Hheld' in Hx. apply in_app_or in Hx as [Hx|Hx]; [apply in_or_app; right; apply in_or_app; auto|].
         apply in_app_or in Hx as [Hx|Hx]; [apply in_or_app; left; auto|apply in_or_app; right; apply in_or_app; auto].
       * eapply nd_app_l. eapply Permutation_NoDup; [apply Permutation_sym; exact Pm|exact Hn3].
       * intros c0 b0 i0 Hin. apply in_app_or in Hin as [Hin|Hin].
-        -- destruct (He c0 b0 i0 Hin) as [Hat|Hac]; [apply in_or_app; left; apply Hi; eapply at_addr_held; eauto|].
-           apply in_or_app; right; apply in_or_app; auto.
+        -- destruct (He c0 b0 i0 Hin) as [Hat|Hh0]; [apply in_or_app; left; eapply HheldA; eauto|].
+           apply in_or_app; right; apply in_or_app; right. eapply HidsH; eauto.
         -- apply in_or_app; left. eapply H4; eauto.
-      * intros c0 b0 i0 b1 i1 Hc0 Hin Hat'. destruct (Ha b1 i1 c0 Hat') as [Hat|Hnew].
+      * intros c0 b0 i0 b1 i1 Hin Hat'.
+        destruct (Hst b1 i1 c0 Hat') as [Hat|[Hh1|[Htk|[Hac Hnh]]]].
         -- apply in_app_or in Hin as [Hin|Hin]; [|eapply H5; eauto].
-           destruct (He c0 b0 i0 Hin) as [Hat0|Hac]; [eapply Huniq; eauto|exfalso; apply Hc0; auto].
-        -- exfalso. apply in_app_or in Hnew as [Hnew|Hnew]; [|apply Hc0; auto].
-           apply (Hfresh c0); [apply in_or_app; auto|].
-           apply in_app_or in Hin as [Hin|Hin]; [|eapply H4; eauto].
-           destruct (He c0 b0 i0 Hin) as [Hat0|Hac]; [apply Hi; eapply at_addr_held; eauto|exfalso; apply Hc0; auto].
-      * intros c0 b0 i0 b1 i1 Hc0 Hi1 Hi2.
+           destruct (He c0 b0 i0 Hin) as [Hat0|Hh0]; [eapply Huniq; eauto|].
+           exfalso. apply (Hfresh c0); [apply in_or_app; right; eapply HidsH; eauto|eapply HheldA; eauto].
+        -- apply in_app_or in Hin as [Hin|Hin].
+           ++ destruct (He c0 b0 i0 Hin) as [Hat0|Hh0]; [|eapply Hfun; eauto].
+              exfalso. apply (Hfresh c0); [apply in_or_app; right; eapply HidsH; eauto|eapply HheldA; eauto].
+           ++ exfalso. apply (Hfresh c0); [apply in_or_app; right; eapply HidsH; eauto|eapply H4; eauto].
+        -- exfalso. apply in_app_or in Hin as [Hin|Hin].
+           ++ destruct (He c0 b0 i0 Hin) as [Hat0|Hh0].
+              ** apply (Hfresh c0); [apply in_or_app; left; auto|eapply HheldA; eauto].
+              ** apply (Htkacc c0); auto. eapply HidsH; eauto.
+           ++ apply (Hfresh c0); [apply in_or_app; left; auto|eapply H4; eauto].
+        -- exfalso. apply in_app_or in Hin as [Hin|Hin].
+           ++ destruct (He c0 b0 i0 Hin) as [Hat0|Hh0].
+              ** apply (Hfresh c0); [apply in_or_app; right; auto|eapply HheldA; eauto].
+              ** apply Hnh. unfold ids3. apply (in_map (fun x => fst (fst x)) _ (c0, b0, i0)) in Hh0. exact Hh0.
+           ++ apply (Hfresh c0); [apply in_or_app; right; auto|eapply H4; eauto].
+      * intros c0 b0 i0 b1 i1 Hi1 Hi2.
         apply in_app_or in Hi1 as [Hi1|Hi1]; apply in_app_or in Hi2 as [Hi2|Hi2].
-        -- destruct (He _ _ _ Hi1) as [A1|A1]; [|exfalso; apply Hc0; auto].
-           destruct (He _ _ _ Hi2) as [A2|A2]; [|exfalso; apply Hc0; auto]. eapply Huniq; eauto.
-        -- destruct (He _ _ _ Hi1) as [A1|A1]; [|exfalso; apply Hc0; auto].
-           destruct (H5 c0 b1 i1 b0 i0 Hc0 Hi2 A1); auto.
-        -- destruct (He _ _ _ Hi2) as [A2|A2]; [|exfalso; apply Hc0; auto]. eapply H5; eauto.
+        -- destruct (He _ _ _ Hi1) as [A1|A1]; destruct (He _ _ _ Hi2) as [A2|A2].
+           ++ eapply Huniq; eauto.
+           ++ exfalso. apply (Hfresh c0); [apply in_or_app; right; eapply HidsH; eauto|eapply HheldA; eauto].
+           ++ exfalso. apply (Hfresh c0); [apply in_or_app; right; eapply HidsH; eauto|eapply HheldA; eauto].
+           ++ eapply Hfun; eauto.
+        -- destruct (He _ _ _ Hi1) as [A1|A1].
+           ++ destruct (H5 c0 b1 i1 b0 i0 Hi2 A1); auto.
+           ++ exfalso. apply (Hfresh c0); [apply in_or_app; right; eapply HidsH; eauto|eapply H4; eauto].
+        -- destruct (He _ _ _ Hi2) as [A2|A2].
+           ++ eapply H5; eauto.
+           ++ exfalso. apply (Hfresh c0); [apply in_or_app; right; eapply HidsH; eauto|eapply H4; eauto].
         -- eapply H6; eauto.
-      * intros x Hx. apply H7. apply in_or_app; auto.
 Qed.
 
-(** from the empty state: with distinct child ids, every poll and every drop of a child that was
-    handed to the collection (not pulled from an upstream in mid-operation) is logged at one address *)
+(** from the empty state: with distinct child ids, every poll and every drop of a child - in
+    every collection and combinator, also of the children an adapter pulls from its upstream in
+    the middle of an operation - is logged at one address *)
 Theorem log_addresses_stable ops c b i b' i' :
   NoDup (taken_in P init_state ops ++ pulled_in P init_state ops) ->
-  ~ In c (pulled_in P init_state ops) ->
   In (c, b, i) (aevs_in init_state ops) -> In (c, b', i') (aevs_in init_state ops) -> b = b' /\ i = i'.
 Proof.
-  intros Hn Hc H1 H2.
-  refine (@log_addresses_stable_from init_state ops [] (pulled_in P init_state ops) [] Inv_init _ _ _ _ _ _ _ c b i b' i' Hc _ _).
+  intros Hn H1 H2.
+  refine (@log_addresses_stable_from init_state ops [] [] Inv_init _ _ _ _ _ _ c b i b' i' _ _).
   - exact Hn.
   - intros x [].
   - constructor.
   - intros ? ? ? [].
-  - intros ? ? ? ? ? ? [].
-  - intros ? ? ? ? ? ? [].
-  - apply incl_refl.
+  - intros ? ? ? ? ? [].
+  - intros ? ? ? ? ? [].
   - rewrite app_nil_r; auto.
   - rewrite app_nil_r; auto.
 Qed.
